@@ -6,11 +6,88 @@ HERE = os.path.dirname(os.path.dirname(os.path.abspath(__file__)))
 
 TECH = "symbolic execution of the real Python code on z3 term scalars; z3 (QF_NRA) decides each obligation; counterexamples replayed on the real code"
 
+COMMON_NOTE = (" Trusted: z3 5.1 (QF_NRA/nlsat), the axiom schemas for sqrt/sin/cos/atan2/acos/atan/exp/log/mod in symx/core.py (sound facts about the real functions: unsat transfers, sat is only a candidate that must replay on the real code), the polynomial normal-form rewriting in symx/poly.py, spec/model.py where it is the oracle. Exact-real semantics: float64 rounding, overflow and signed zeros are outside the claim. Obligations listed in bounds.json -> outside_claim are not claimed (inconclusive within the budget on the pinned tree); bounds.json -> slow run only in the thorough tier.")
+
 CLAIMS = {
     "C01": dict(
-        text="Bounded SMT checking of the symbolically executed real code: for every dispatch_map entry of every compute module (read from /repo at run time) the module's dispatch entry is executed on object-backend vectors whose coordinates are z3 terms, once stored in the entry's coordinate systems and once in Cartesian coordinates holding the same geometric vector; z3 decides that both results denote the same value for all real operands of the representable domain. Exact-real semantics: float rounding is outside the claim.",
-        note="Trusted: z3 5.1, the axiom schemas for sqrt/sin/cos/atan2/acos/atan/exp/log/mod in symx/core.py, the decoding of stored coordinates in spec/model.py. Assumes the representable domain stated in the property (rho>0, -pi<phi<=pi, 0<theta<pi, tau>=0, off-axis for theta/eta) plus per-operation finiteness conditions listed in props/c01.py::extra_domain. isclose is excluded (system-dependent by definition, see C12). Obligations listed in bounds.json are outside the claim.",
+        text="Bounded SMT checking of the symbolically executed real code: for every dispatch_map entry of every compute module (read from /repo at run time) the module's dispatch entry is executed on object-backend vectors whose coordinates are z3 terms, once stored in the entry's coordinate systems and once in Cartesian coordinates holding the same geometric vector; z3 decides that both results denote the same value for all real operands of the representable domain, and that every sub-expression is defined there.",
+        note="Representable domain as stated in the property (rho>0, -pi<phi<=pi, 0<theta<pi, tau>=0, off-axis for theta/eta, result representable in the returned system) plus per-operation finiteness conditions in props/c01.py::extra_domain. isclose is excluded (system-dependent by definition, see C12). Known findings: Et and to_beta3 for t<0 (known_findings.json)." + COMMON_NOTE,
         design="DESIGN.md §4 C01",
+    ),
+    "C02": dict(
+        text="Bounded SMT checking against an independent reference model: every public accessor/operation of the object backend is executed on z3-term vectors in every coordinate system and z3 decides equality with the documented definition (spec/model.py) for all real operands where the definition is finite.",
+        note="Second operands: Cartesian, same system and one rotating mixed system (all mixes: C01). The float64 rounding clause of the property is not claimed." + COMMON_NOTE,
+        design="DESIGN.md §4 C02",
+    ),
+    "C03": dict(
+        text="Bounded SMT checking on two backends at once: the object backend and the real NumPy backend classes (on structured arrays of dtype object holding the same z3-term scalars) execute each property/method; per element the array result must be the object result (same term or z3-equal), with the same fields, shape, class and flavor; NumPy x NumPy, NumPy x object, object x NumPy pairings; scalar arguments as scalars and arrays.",
+        note="PARTIAL: Awkward arrays/records are not reachable (C++ buffers). Lane stubs: vector.backends.numpy._is_type_safe (rejects object dtype) and the lane subclasses' lib/_wrap_dispatched_function (DESIGN.md §2.5)." + COMMON_NOTE,
+        design="DESIGN.md §4 C03",
+    ),
+    "C04": dict(
+        text="Bounded SMT checking + object identity: all 40 to_* spellings x 20 source systems x both flavors, to_VectorND/to_ND/like with every keyword: same-system conversion returns the stored objects themselves, every conversion and round trip denotes the same vector (z3), retained coordinates are the same objects, imputed coordinates are exactly the keyword's object in the named coordinate type or literal zero, conflicting keywords raise.",
+        note="Object backend (NumPy field placement is exercised through C03's lane); identity of Python objects is the oracle for 'bit-for-bit'." + COMMON_NOTE,
+        design="DESIGN.md §4 C04",
+    ),
+    "C05": dict(
+        text="Single-path symbolic execution over the finite lattice (method x coordinate-system signature x flavor of each operand x dimension pairing): result class, flavor, dimension, stored coordinate classes observed on one symbolic path hold for every value; compared with the documented rules; dispatch_maps compared with the full Cartesian product; operator == method by identity or z3.",
+        note="PARTIAL: object x object lattice here (NumPy pairings through C03's lane); Awkward pairings are not reachable. The solver's role is value independence and operator equality." + COMMON_NOTE,
+        design="DESIGN.md §4 C05",
+    ),
+    "C06": dict(
+        text="Path-exhaustive symbolic execution of the real constructors over name sets (presence booleans for 19 names + 1 foreign, <= 4 true in quick / <= 5 in thorough, two keyword orders): for each path z3 decides that accept/reject, dimension, flavor, coordinate classes and which supplied (symbolic) value is stored where equal the documented grammar; value kinds enumerated.",
+        note="PARTIAL: vector.obj, the six object classes, vector.array (name logic + real NumPy construction) and awkward _check_names; ak.zip/vector.Array beyond _check_names are not reachable. The grammar encoding (props/c06.py::Spec) is trusted." + COMMON_NOTE,
+        design="DESIGN.md §4 C06",
+    ),
+    "C08": dict(
+        text="Bounded SMT checking across backends: the real SymPy backend's result expressions are evaluated on the z3-term scalars of the object-lane vector and z3 decides equality with the object backend's term on the regular domain (timelike, forward, off-axis).",
+        note="Structural ==/!= of SymPy expressions are outside (not numeric statements). The structural SymPy-expression evaluator (props/c08.py::sym_eval) is trusted." + COMMON_NOTE,
+        design="DESIGN.md §4 C08",
+    ),
+    "C09": dict(
+        text="Bounded SMT checking of the boost laws through the public API (boosted vector in all 12 systems, boosters in rotating systems): Minkowski invariance of products, inverse, velocity addition, spelling equalities, dispatch on booster dimension, rest frame of boostCM_of(v).",
+        note="|beta|<1, booster timelike with E>0, tau>=0." + COMMON_NOTE,
+        design="DESIGN.md §4 C09",
+    ),
+    "C10": dict(
+        text="Bounded SMT checking of the rotation laws through the public API in all systems: isometry, handedness (det=+1 on the basis), time pass-through, additivity and inverse, rotate_axis vs rotateX/Y/Z and axis length, quaternion vs rotate_axis, 12 Euler orders (both letter cases) vs products of axis rotations, rotate_nautical.",
+        note="All angles (no range restriction); polynomial identities modulo cos^2+sin^2=1." + COMMON_NOTE,
+        design="DESIGN.md §4 C10",
+    ),
+    "C11": dict(
+        text="Bounded SMT checking of the vector-space, dot, cross, unit and norm-ufunc laws through operators and methods, same-system pairs and a covering set of mixed pairs, nested operations executed directly.",
+        note="Negative scale factors only for t-stored vectors." + COMMON_NOTE,
+        design="DESIGN.md §4 C11",
+    ),
+    "C12": dict(
+        text="Bounded SMT checking of ==, !=, equal, not_equal, isclose for all 184 system pairings in exact reals ('!= is not ==', symmetry, == implies isclose, reflexivity, tolerance monotonicity, same-system characterisations) and in bit-exact IEEE Float64 (QF_FP) for the same-system ==/!= kernels.",
+        note="Tolerance monotonicity in IEEE arithmetic is not claimed (queries do not finish)." + COMMON_NOTE,
+        design="DESIGN.md §4 C12",
+    ),
+    "C13": dict(
+        text="Bounded SMT checking of every range / sign / classification clause in every coordinate system: phi, deltaphi, theta, deltaangle ranges; non-negativity; signs of costheta/cottheta; t from tau (defined for all finite tau); tau sign; beta/gamma; causal predicates disjoint and ordered; directional predicates vs cosine thresholds; definedness obligations for the never-NaN clauses.",
+        note="Exact reals; boundary values of float results under rounding are outside." + COMMON_NOTE,
+        design="DESIGN.md §4 C13",
+    ),
+    "C14": dict(
+        text="Bounded SMT checking + object identity over the synonym table x every coordinate system: momentum getters return the geometric getter's object or a z3-equal term, setters through synonyms give the same post-state, construction and to_* synonyms agree, Et/Mt spellings identical, flavor never changes a number.",
+        note="PARTIAL: object backend; NumPy field access through C03's lane; Awkward fields not reachable." + COMMON_NOTE,
+        design="DESIGN.md §4 C14",
+    ),
+    "C15": dict(
+        text="One inductive step from an arbitrary symbolic pre-state (every class, system, flavor): each setter name and each in-place operator; post-conditions decided by object identity and z3; induction covers histories of any length.",
+        note="Object backend; the SymPy backend's copy of the setters is not claimed." + COMMON_NOTE,
+        design="DESIGN.md §4 C15",
+    ),
+    "C16": dict(
+        text="Frame condition inside single-path symbolic runs of every public operation, conversion, comparison (call shapes of C02, C04, C05, C09-C13, including raising calls): class, coordinate containers and identity of every stored coordinate object of every operand unchanged; value-independent because the run is single-path.",
+        note="PARTIAL: object backend and NumPy lane (C03/C17 carry the same frame goal for arrays); float64 buffer aliasing and Awkward are not reachable. No SMT query is needed for identity; the solver-based part is the symbolic execution itself." + COMMON_NOTE,
+        design="DESIGN.md §4 C16",
+    ),
+    "C17": dict(
+        text="Bounded SMT checking of numpy.sum/.sum() of the NumPy backend on structured arrays of z3-term scalars: every coordinate system/dimension/flavor, shapes (1,),(3,),(2,2),(2,3), axes None/0/1/-1, keepdims: result components equal the sums of the elements' Cartesian components (z3), shape/fields/flavor structural; empty arrays concretely (no values involved).",
+        note="PARTIAL: count_nonzero and all ak.* reducers are not reachable." + COMMON_NOTE,
+        design="DESIGN.md §4 C17",
     ),
 }
 
@@ -20,7 +97,7 @@ NOT_APPLICABLE = {
     "C19": "NumPy indexing/slicing/views/pickling run in NumPy C code and the property has no value-dependent content: in this family it would be enumeration of concrete runs, not a solver verdict (DESIGN.md §5)",
     "C20": "process-global C state (numpy.errstate, warnings filters, awkward.behavior) and CPython thread schedules are not computed by code that can be executed symbolically (DESIGN.md §5)",
 }
-PENDING = "check not built yet in this session; planned as described in DESIGN.md §4"
+PENDING = "not claimed"
 ALL = [f"C{n:02d}" for n in range(1, 21)]
 
 
